@@ -158,7 +158,7 @@ ASSUME
   CASE Mode = "graph-law"   -> DfsRefines
     [] Mode = "graph-cases" -> GraphCases
     [] Mode = "path-q" -> PathLaw(4) /\ PathCases(4) /\ DepCases(2)
-    [] Mode = "path-t" -> PathLaw(6) /\ PathCases(5) /\ DepCases(3)
+    [] Mode = "path-t" -> PathLaw(7) /\ PathCases(6) /\ DepCases(4)
     [] Mode = "trace" -> TraceCheck
     [] OTHER -> TRUE
 =============================================================================
